@@ -420,6 +420,11 @@ def run_check(prop, tier, seed, obligations, ctx, level, functions, assumptions,
     t0 = time.time()
     results = []
     lock = threading.Lock()
+    rdir = os.path.join(VERIF, "evidence", "replay")
+    if os.path.isdir(rdir):       # replay files of earlier runs of this property are stale
+        for fn in os.listdir(rdir):
+            if fn.startswith(prop + "."):
+                os.unlink(os.path.join(rdir, fn))
     with ThreadPoolExecutor(max_workers=JOBS) as ex:
         futs = {ex.submit(run_obligation, ctx, o): o for o in obligations}
         for fu in as_completed(futs):
